@@ -437,11 +437,29 @@ impl C07 {
                         format!("{} clock reads without a deadline", none.probes),
                     );
                 }
-                let dry = raw_exec(seq, true, Sched::Never).map_err(|m| Fail {
+                let dry = raw_exec2(seq, slices, true, Sched::Never).map_err(|m| Fail {
                     clause: "c07.panic",
                     detail: format!("never-expiring deadline: {}", m),
                 })?;
                 out.execs += 1;
+                if slices {
+                    // the slices shortcut must hand the deadline on: it checks
+                    // the clock whenever the plain entry point does
+                    let plain = raw_exec(seq, true, Sched::Never).map_err(|m| Fail {
+                        clause: "c07.panic",
+                        detail: m,
+                    })?;
+                    out.execs += 1;
+                    if plain.probes > 0 && dry.probes == 0 {
+                        return fail(
+                            "c07.raw_plumbing",
+                            format!(
+                                "diff_slices_deadline makes {} deadline checks where diff_deadline makes {}",
+                                dry.probes, plain.probes
+                            ),
+                        );
+                    }
+                }
                 let kmax = dry.probes;
                 out.gauge("max_probes_per_case", kmax);
                 for k in fault_points(kmax, case.cap, case.sample_seed, case.only_k) {
@@ -534,11 +552,27 @@ impl C07 {
                     clause: "c07.panic_no_deadline",
                     detail: m,
                 })?;
-                let dry = raw_exec(seq, true, Sched::Never).map_err(|m| Fail {
+                let alone = raw_exec(seq, true, Sched::Never).map_err(|m| Fail {
                     clause: "c07.panic",
                     detail: m,
                 })?;
-                out.execs += 2;
+                let dry = capture_exec2(seq, slices, true, Sched::Never).map_err(|m| Fail {
+                    clause: "c07.panic",
+                    detail: m,
+                })?;
+                out.execs += 3;
+                // the deadline reaches the algorithm: the capture function
+                // checks the clock whenever the bare algorithm does (more
+                // checks, or a different number of them, are the implementation's business)
+                if alone.probes > 0 && dry.probes == 0 {
+                    return fail(
+                        "c07.capture_plumbing",
+                        format!(
+                            "capture function makes {} deadline checks, the algorithm alone {}",
+                            dry.probes, alone.probes
+                        ),
+                    );
+                }
                 let kmax = dry.probes;
                 out.gauge("max_probes_per_case", kmax);
                 for k in fault_points(kmax, case.cap, case.sample_seed, case.only_k) {
@@ -554,6 +588,14 @@ impl C07 {
                             detail: format!("k={}: {}", k, f.detail),
                         }
                     })?;
+                    if seq.old_core() == seq.new_core() {
+                        if let Some(op) = run.ops.iter().find(|op| !op.is_equal()) {
+                            return fail(
+                                "c07.identical_only_equal",
+                                format!("k={}: identical inputs produced {:?}", k, op),
+                            );
+                        }
+                    }
                     let expect = if k < kmax { Some(k) } else { None };
                     if run.first_expired != expect || (k >= kmax && run.probes != kmax) {
                         return fail(
@@ -620,11 +662,37 @@ impl C07 {
                         format!("{} probes, {} now reads without a deadline", none.probes, none.now_plus_calls),
                     );
                 }
-                let dry = direct_exec(&core, true, Sched::Never).map_err(|m| Fail {
+                let alone = direct_exec(&core, true, Sched::Never).map_err(|m| Fail {
                     clause: "c07.panic",
                     detail: m,
                 })?;
-                out.execs += 2;
+                let dl_dry = match case.entry {
+                    Entry::BuilderOverride { abs_last, nanos } => {
+                        if abs_last {
+                            Dl::RelThenAbs(Duration::from_nanos(nanos))
+                        } else {
+                            Dl::AbsThenRel(Duration::from_nanos(nanos))
+                        }
+                    }
+                    _ => match rel {
+                        Some(n) => Dl::Rel(Duration::from_nanos(n)),
+                        None => Dl::Abs,
+                    },
+                };
+                let dry = builder_exec(&core, *lines, dl_dry, Sched::Never).map_err(|m| Fail {
+                    clause: "c07.panic",
+                    detail: m,
+                })?;
+                out.execs += 3;
+                if alone.probes > 0 && dry.probes == 0 {
+                    return fail(
+                        "c07.builder_plumbing",
+                        format!(
+                            "the configured builder makes {} deadline checks, capture_diff_deadline on the same tokens {}",
+                            dry.probes, alone.probes
+                        ),
+                    );
+                }
                 let kmax = dry.probes;
                 out.gauge("max_probes_per_case", kmax);
                 for k in fault_points(kmax, case.cap, case.sample_seed, case.only_k) {
@@ -645,11 +713,7 @@ impl C07 {
                         clause: "c07.panic",
                         detail: format!("k={}: {}", k, m),
                     })?;
-                    let direct = direct_exec(&core, true, Sched::Indexed(k)).map_err(|m| Fail {
-                        clause: "c07.panic",
-                        detail: format!("k={}: direct: {}", k, m),
-                    })?;
-                    out.execs += 2;
+                    out.execs += 1;
                     crate::engine::trace(|| format!("builder {:?} k={} of K={}: probes={} asked={:?} now_reads={} ops={:?}", core.alg, k, kmax, run.probes, run.asked, run.now_plus_calls, run.ops));
                     walk_ops(&run.ops, &core.old, &core.new, core.or(), core.nr()).map_err(|f| {
                         Fail {
@@ -664,29 +728,23 @@ impl C07 {
                     if matches!(case.entry, Entry::BuilderOverride { .. }) {
                         out.count("builder_both_setters", 1);
                     }
-                    if rel.is_some() && run.now_plus_calls != 1 {
+                    if run.now_plus_calls > 1
+                        || (rel.is_some() && run.probes > 0 && run.now_plus_calls != 1)
+                    {
                         return fail(
                             "c07.builder_plumbing",
                             format!("k={}: timeout converted {} times", k, run.now_plus_calls),
                         );
                     }
-                    if run.probes != direct.probes
-                        || run.first_expired != direct.first_expired
-                        || run.asked.iter().any(|&a| a != expect_deadline)
+                    if run.asked.iter().any(|&a| a != expect_deadline)
                         || (kmax > 0 && run.asked.is_empty())
                     {
                         return fail(
                             "c07.builder_plumbing",
                             format!(
-                                "k={}: builder saw {} probes (first expired {:?}, asked {:?}), direct call {} probes (first expired {:?}), configured deadline {}",
-                                k, run.probes, run.first_expired, run.asked, direct.probes, direct.first_expired, expect_deadline
+                                "k={}: the clock was asked about {:?}, the deadline in force is {}",
+                                k, run.asked, expect_deadline
                             ),
-                        );
-                    }
-                    if run.ops != direct.ops {
-                        return fail(
-                            "c07.builder_equals_direct",
-                            format!("k={}: builder ops differ from capture_diff_deadline on the tokens", k),
                         );
                     }
                     if k >= kmax {
@@ -814,7 +872,7 @@ impl C07 {
                 crate::engine::trace(|| format!("builder reuse {:?}: timeout {} ns, {} ns pass between two diffs: now reads={} deadlines handed out={:?} asked={:?} first_expired={:?}", core.alg, nanos, gap_ns, run.now_plus_calls, run.given, run.asked, run.first_expired));
                 walk_ops(&a, &core.old, &core.new, core.or(), core.nr())?;
                 walk_ops(&b, &core.old, &core.new, core.or(), core.nr())?;
-                if run.now_plus_calls != 2 || run.asked.iter().any(|x| !run.given.contains(x)) {
+                if run.now_plus_calls > 2 || run.asked.iter().any(|x| !run.given.contains(x)) {
                     return fail(
                         "c07.timeout_relative_to_each_diff",
                         format!(
@@ -935,15 +993,15 @@ impl C07 {
                         "simulated clock answered non-monotonically".into(),
                     );
                 }
-                if run.now_plus_calls != 1 {
+                if run.now_plus_calls > 1 {
                     return fail(
                         "c07.builder_plumbing",
-                        format!("timeout converted {} times", run.now_plus_calls),
+                        format!("timeout converted {} times for one diff", run.now_plus_calls),
                     );
                 }
                 if *dur == DurKind::Max {
                     out.faults[F_OVERFLOW] += 1;
-                    if run.now_plus_overflow != 1 || run.probes != 0 || run.ops != none.ops {
+                    if run.probes != 0 || run.ops != none.ops {
                         return fail(
                             "c07.timeout_overflow_means_none",
                             format!(
